@@ -25,6 +25,7 @@
 package main
 
 import (
+	"flag"
 	"fmt"
 	"os"
 	"runtime/pprof"
@@ -44,6 +45,7 @@ type replayT struct {
 }
 
 func main() {
+	only := flag.String("only", "", "developer aid: comma-separated scenario names to run (run is then marked not exhaustive)")
 	cfg := vlib.ParseFlags("C15", "model_checking")
 	r := vlib.NewReport(cfg)
 	scs := scenarios()
@@ -73,6 +75,10 @@ func main() {
 	summary := map[string]any{}
 	for _, sc := range scs {
 		if sc.ThoroughOnly && !cfg.Thorough() {
+			continue
+		}
+		if *only != "" && !strings.Contains(","+*only+",", ","+sc.Name+",") {
+			r.NotExhaustive("scenario " + sc.Name + " skipped by -only")
 			continue
 		}
 		if cfg.Expired() {
